@@ -175,7 +175,12 @@ def split_on_reset(lines):
 
 
 def _worker(args):
-    comp, seed, idxs, size = args
+    comp, seed, idxs, size, tz = args
+    if tz:
+        import time
+
+        os.environ["TZ"] = tz
+        time.tzset()
     from . import impl, model
 
     genf, vname = COMPONENTS[comp]
@@ -211,13 +216,13 @@ def _worker(args):
     return res
 
 
-def run_component(comp, seed, n_cases, size, workers=None):
+def run_component(comp, seed, n_cases, size, workers=None, tz=None):
     """returns dict(cases, disagreements, distribution, sample)"""
     workers = workers or min(16, os.cpu_count() or 4)
     idxs = list(range(n_cases))
     chunks = [idxs[k::workers] for k in range(workers) if idxs[k::workers]]
-    args = [(comp, seed, ch, size) for ch in chunks]
-    if len(args) == 1:
+    args = [(comp, seed, ch, size, tz) for ch in chunks]
+    if len(args) == 1 and not tz:
         results = [_worker(args[0])]
     else:
         with mp.get_context("fork").Pool(len(args)) as pool:
@@ -233,7 +238,9 @@ def run_component(comp, seed, n_cases, size, workers=None):
             dist[e] = dist.get(e, 0) + 1
     dis = [r for r in flat if r["diff"]]
     return {
-        "component": comp,
+        "component": comp + (f"@{tz}" if tz else ""),
+        "base_component": comp,
+        "tz": tz,
         "cases": len(flat),
         "distinct_nontrivial": len({r["hash"] for r in flat if r["nontrivial"]}),
         "disagreements": dis,
